@@ -33,18 +33,20 @@ def gen_cases(seed, tier):
     for i in range(n):
         u = rng.random()
         if u < 0.3:
-            avg, g = "periodic", 1.0
+            # exactly periodic chains: undiscounted, and discounted with gamma a hair below 1 (there the
+            # documented discounted measure still collapses after one period, the undiscounted one does not)
+            avg, g = "periodic", float(rng.choice([1.0, 1.0, 0.99999, 1 - 1e-7, 0.999]))
         elif u < 0.55:
             avg, g = "unichain", 1.0
         else:
-            avg, g = None, float(rng.choice([0.99, 0.9, 0.5]))
+            avg, g = None, float(rng.choice([0.99, 0.9, 0.5, 0.999999, 1 - 1e-9]))
         spec = gen.random_spec(rng, smin=2, smax=24, avg=avg)
         if spec["init"] == "far":
             spec["init"] = "random"
         if avg == "periodic":
             period = spec["chain_period"] * int(rng.choice([1, 2]))
         else:
-            period = int(rng.choice([1, 2, 3, 4, 7, 12]))
+            period = int(rng.choice([1, 2, 3, 4, 7, 12, 12, 70, 200]))   # incl. periods longer than the run
             if g == 1.0 and period < 2:
                 period = 2
         eps = float(spec["scale"] * 10.0 ** rng.uniform(-5, 0))
